@@ -114,4 +114,47 @@ def rule_c(ctx):
     return r
 
 
-RULES = [rule_a, rule_b, rule_c]
+
+def rule_d(ctx):
+    r = RuleResult("C06-d", "compressed number spelling drops only a literal leading `0`: no string is cut at a constant offset without a test of the prefix being cut off")
+    prog = ctx.prog()
+    n = 0
+    for b in prog.bodies.values():
+        if b.crate != "grass_compiler":
+            continue
+        for c in b.calls():
+            if an.tail2(c.callee) != "Index::index" or not c.fn_args or c.fn_args[0] not in ("str", "std::string::String") or len(c.fn_args) < 2:
+                continue
+            if not c.fn_args[1].startswith("std::ops::range::Range"):
+                continue
+            n += 1
+            # start of the range: constant >= 1 ?
+            start = None
+            if c.args[1].place is not None and not c.args[1].place.proj:
+                for bb, i, d in b.defs_of(c.args[1].place.local):
+                    if isinstance(d, dict) and d["k"] == "agg" and d.get("ops"):
+                        o = Operand(d["ops"][0])
+                        if o.const is not None:
+                            try:
+                                start = int(o.const_value())
+                            except (TypeError, ValueError):
+                                start = None
+            if not start:
+                continue  # computed offsets are position arithmetic, checked elsewhere (C14-c) or index-derived
+            subject = an.trace_operand(b, c.args[0])
+            key = "%s|cut-at-%d" % (b.path, start)
+            tested = False
+            for d_ in b.dominators(c.bb):
+                cc = b.call_at(d_)
+                if cc is not None and an.tail2(cc.callee) in ("str::starts_with", "str::strip_prefix", "str::as_bytes", "str::chars") and cc.args and an.trace_operand(b, cc.args[0]) == subject:
+                    tested = True
+            if tested:
+                r.ok(key, subject=repr(subject))
+            else:
+                r.violate(key, "%s drops the first %d byte(s) of %r without looking at them: a number in [0.99999999995, 1) is formatted as `1.0000000000`, so compressed "
+                          "output prints it as `0` where expanded output prints `1`" % (b.path, start, subject), c.loc())
+    r.floor("string index-slice sites examined", n, 5)
+    return r
+
+
+RULES = [rule_a, rule_b, rule_c, rule_d]
